@@ -1290,6 +1290,9 @@ class MessageRouter:
         self._thread.join()
         self._thread = None
 
+        # The TCP server (if any) is gone.
+        self.tcp_server_port = 0
+
     def register_message_handler(self, message_handler: QMI_MessageHandler) -> None:
         """Register a local message handler."""
         assert message_handler.address.context_id == self.context_name
